@@ -19,6 +19,7 @@ def opCtx (w : World) : Op → Option CtxId
   | .getNowait c _ _ => some c
   | .get _ c _ _ => some c
   | .genFinish c _ _ => some c
+  | .cancelGet c _ _ => some c
   | .addTeardown c _ _ => some c
   | .inject t _ _ _ => w.curOf t
   | _ => none
@@ -58,6 +59,7 @@ theorem C02_frame (w : World) (op : Op) (c : CtxId) (hc : opCtx w op ≠ some c)
   | getNowait c' k opt => rw [step, onCtx_frame w c c' _ (fun e => hc (by rw [opCtx, e]))]
   | get t c' k opt => rw [step, onCtx_frame w c c' _ (fun e => hc (by rw [opCtx, e]))]
   | genFinish c' fid next => rw [step, onCtx_frame w c c' _ (fun e => hc (by rw [opCtx, e]))]
+  | cancelGet c' lid next => rw [step, onCtx_frame w c c' _ (fun e => hc (by rw [opCtx, e]))]
   | getAll c' ty => simp only [step]; split <;> rfl
   | addTeardown c' cb callable => rw [step, onCtx_frame w c c' _ (fun e => hc (by rw [opCtx, e]))]
   | current t => simp only [step]; split <;> rfl
